@@ -96,8 +96,12 @@ func (d *Decrypter) processJoinRequest(decoded server.LoRaMessage) bool {
 	// Update the device with new keys and DevNonce
 	if !d.context.Config.DisableNonceCheck {
 		if err := d.context.Storage.AddDevNonce(device, joinRequest.DevNonce); err != nil {
-			lg.Warning("Unable to update DevNonce on device with EUI: %s: %v",
+			// Either the nonce is already stored (another copy of the request
+			// got here first) or it can't be stored; the request can't be
+			// honoured without the nonce in place.
+			lg.Warning("Unable to update DevNonce on device with EUI: %s: %v. Ignoring JoinRequest.",
 				device.DeviceEUI, err)
+			return false
 		}
 	}
 
